@@ -10,14 +10,8 @@ namespace Moc.C02
 
 /-- The executable judge used by the correspondence check on every implementation output is the
     property itself. -/
-theorem validB_iff (q : Qty) (w d : Nat) (rs : List Rng) : validB q w d rs = true ↔ Valid q w d rs := by
-  unfold validB Valid
-  rw [Bool.and_eq_true, Bool.and_eq_true, canonB_iff]
-  have h1 : boundedByB (q.nCellsMax w) rs = true ↔ BoundedBy (q.nCellsMax w) rs := by
-    simp [boundedByB, BoundedBy, List.all_eq_true]
-  have h2 : alignedB (q.cellSize w d) rs = true ↔ Aligned (q.cellSize w d) rs := by
-    simp [alignedB, Aligned, List.all_eq_true, Nat.dvd_iff_mod_eq_zero]
-  rw [h1, h2, and_assoc]
+theorem validB_iff (q : Qty) (w d : Nat) (rs : List Rng) : validB q w d rs = true ↔ Valid q w d rs :=
+  Moc.validB_iff q w d rs
 
 /-- **Programs.** Any expression tree over and / or / xor / minus / not / degrade (eager `RangeMOC`
     methods) applied to valid leaves yields a valid MOC of a legal depth — by induction on the tree,
